@@ -276,13 +276,16 @@ def evaluate(ctx, text, count=True):
                     # tree no longer has one of
                     kinds = holders.get(lost[0], ['?'])
                     kind = kinds[0]
-                    if len(set(kinds)) > 1 and t2 is not None:
-                        h2 = [vtree.kind_of(n) for p_, n, cs in comments_of(t2) for c in cs if c.value == lost[0]]
-                        rest = list(kinds)
-                        for k in h2:
-                            if k in rest:
-                                rest.remove(k)
-                        kind = rest[0] if rest else kinds[0]
+                    if len(set(kinds)) > 1:
+                        # several comments with this text: which occurrence is missing is read off the alignment
+                        # of the two sequences (the node kind holding a surviving comment may change in print)
+                        import difflib
+                        gone = [i for tag, i1, i2, j1, j2 in difflib.SequenceMatcher(None, seq, seq2, autojunk=False).get_opcodes()
+                                if tag in ('delete', 'replace') for i in range(i1, i2) if seq[i] == lost[0]]
+                        if gone:
+                            nth = seq[:gone[0]].count(lost[0])
+                            if nth < len(kinds):
+                                kind = kinds[nth]
                     mech += ':lost_from_' + kind
             elif sorted(seq) == sorted(seq2):
                 mech += ':reordered'
